@@ -1400,6 +1400,9 @@ def walk(
                     recurse = True
                     scope = False
 
+            else:
+                self_ = False  # enter was not yielded because of `all` check so for `on='both'` there must be no leave either
+
         # if we are walking scope then we may need to exclude some parts of the top-level node, we do after first step of walk in case top level node is replaced or scope turned off by `send(True)`
 
         if scope:  # some parts of functions or classes or the various comprehensions are outside their scope
@@ -1530,7 +1533,7 @@ def walk(
 
             # last yield on leaving walk root, which may restart the walk
 
-            if self_ and (ast := self.a):  # may have been deleted
+            if self_ and (ast := self.a) and check_all_param(self):  # may have been deleted, and is subject to `all` check like any other node
                 recurse_ = False
 
                 while (sent := (yield self)) is not None:
@@ -1611,7 +1614,7 @@ def walk(
 
             # last yield on leaving walk root, which may restart the walk
 
-            if self_ and (ast := self.a):  # may have been deleted
+            if self_ and (ast := self.a) and check_all_param(self):  # may have been deleted, and is subject to `all` check like any other node
                 recurse_ = False
                 yield_ = (self, True)
 
